@@ -162,6 +162,20 @@ fn targets(tier: Tier) -> Vec<Target> {
             t.push(Target { label: format!("[fault-free only] {:?} compress 70000 bytes, source hands over 10 bytes first", fmt), base: Case::Enc { fmt, size: EncSize::Skip, input: Hex(big.clone()), rd: short_first.clone(), sk: Sk::default() }, must_flush: false, expect: None });
         }
     }
+    // inputs on which the range encoder holds back a cached byte plus a run of 3, 4, ... pending 0xFF bytes and then lets them
+    // go at once, with and without a carry (model-guided search on the reference encoder, see C04): the group is the one place
+    // where the encoder hands several bytes to the sink in one step, so sinks that take part of a write must still get all
+    for (pi, prefix) in [vec![], vec![0u8; 300]].iter().enumerate() {
+        let mut found = super::c04::carry_witnesses(prefix, tier.pick(64, 160), tier.pick(6, 16));
+        found.sort_by(|a, b| b.1.cmp(&a.1));
+        found.truncate(tier.pick(2, 5));
+        for (w, run) in found {
+            let mut x = w.clone();
+            x.extend_from_slice(b"tail");
+            t.push(enc_t(&format!("lzma_compress {} bytes: carry through a run of {} pending 0xFF bytes (search start {}) [marker]", x.len(), run, pi), Fmt::Lzma, EncSize::HeaderNone, x.clone()));
+            t.push(enc_t(&format!("lzma_compress {} bytes: carry through a run of {} pending 0xFF bytes (search start {}) [size]", x.len(), run, pi), Fmt::Lzma, EncSize::HeaderSome(x.len() as u64), x));
+        }
+    }
     t.push(enc_t("lzma_compress empty input", Fmt::Lzma, EncSize::HeaderNone, vec![]));
     t.push(enc_t("lzma_compress 1 byte", Fmt::Lzma, EncSize::HeaderSome(1), vec![0xFF]));
     t.push(enc_t("lzma2_compress empty input", Fmt::Lzma2, EncSize::Skip, vec![]));
